@@ -19,11 +19,11 @@ import (
 // under test. Nothing of the repository is run: the handler's SSA is
 // interpreted abstractly as in K-CALL.
 //
-//   max_by / min_by : the returned value is e_j with j the FIRST index whose
-//                     key is maximal / minimal                (all orderings, N = 1..3)
-//   max / min       : the returned value is an element of maximal / minimal rank
-//   Less adapters   : Less(i, j) is true iff key(items[i]) < key(items[j]) — strict
-//                     (what sort.Stable needs to be stable) and ascending
+//	max_by / min_by : the returned value is e_j with j the FIRST index whose
+//	                  key is maximal / minimal                (all orderings, N = 1..3)
+//	max / min       : the returned value is an element of maximal / minimal rank
+//	Less adapters   : Less(i, j) is true iff key(items[i]) < key(items[j]) — strict
+//	                  (what sort.Stable needs to be stable) and ascending
 func init() { register("K-ORDER", ruleOrder) }
 
 // weakOrders enumerates the rank vectors of all weak orderings of n items
@@ -352,11 +352,11 @@ type lessAdapter struct {
 	less     *ssa.Function
 	named    *types.Named
 	st       *types.Struct
-	latch    int  // index of the failure latch field (bool or error), -1 if none
-	latchErr bool // the latch is error-typed
-	fnFields []int // indices of func-typed fields
+	latch    int                     // index of the failure latch field (bool or error), -1 if none
+	latchErr bool                    // the latch is error-typed
+	fnFields []int                   // indices of func-typed fields
 	configs  []map[int]*ssa.Function // assignments of library functions to those fields that occur together (same block, same object)
-	opaque   bool // a function value that is not a named library function: not decided
+	opaque   bool                    // a function value that is not a named library function: not decided
 	// a function literal handed to sort.Slice / sort.SliceStable: the adapter's
 	// state is the literal's captured variables (latch = index of the captured
 	// failure flag)
